@@ -4,7 +4,8 @@ import json, os, re, shutil, sys, time
 import scratch, kani, units
 
 VERIF = scratch.VERIF
-EVID = os.path.join(VERIF, "evidence")
+# evidence of a run against anything but /repo (seeded-change experiments, VERIF_REPO) never lands in /verif/evidence
+EVID = os.path.join(VERIF, "evidence") if os.environ.get("VERIF_REPO", "/repo") == "/repo" else os.path.join(VERIF, ".cache", "evidence-scratch")
 REPLAY = os.path.join(VERIF, "replay")
 
 
